@@ -5,6 +5,9 @@ import Mathlib.Data.Rat.Cast.Order
 import Mathlib.Tactic.Ring
 import Mathlib.Tactic.Linarith
 import Mathlib.Tactic.FieldSimp
+import Mathlib.Tactic.NormNum
+import Mathlib.Tactic.Positivity
+import Mathlib.Algebra.Order.Floor.Ring
 
 /-!
 # C03 — bridges from the executable ℚ model (`Model/Fraunhofer.lean`, `Model/FraunhoferPipe.lean`) to the
@@ -177,6 +180,88 @@ theorem powerGain_of_full {s : Setup} {focal : RegGrid} {δx δy Δx Δy zx zy Z
   calc 1 / lamf s * (1 / lamf s) * (|δx| * |δy|) * ((Mox : ℚ) * (Moy : ℚ)) * (|Δx| * |Δy|)
       = (1 / lamf s * (1 / lamf s)) * ((|δx| * |Δx| * (Mox : ℚ)) * (|δy| * |Δy| * (Moy : ℚ))) := by ring
     _ = 1 := by rw [h1, h2, h3]; field_simp
+
+/-- a concrete full conjugate pair (pupil `2×2`, `δ = 1`; focal `4×4`, `Δ = 1`, centred; `λ f = 4`) -/
+theorem classify_example_full :
+    classify ⟨4, 1, ⟨[1, 1], [2, 2], [0, 0]⟩⟩ ⟨[1, 1], [4, 4], [-2, -2]⟩ = (.full, [4, 4]) := by
+  have h : paddedSize 4 1 1 2 = some 4 := by
+    unfold paddedSize
+    norm_num
+    rfl
+  simp [classify, paddedSizes, lamf, h, nativeZero]
+
+/-! ## `make_focal_grid_from_pupil_grid` builds a full conjugate -/
+
+theorem floor_le_roundHalfEven (q : ℚ) : q.floor ≤ roundHalfEven q := by
+  unfold roundHalfEven
+  dsimp only
+  split_ifs <;> omega
+
+theorem natCast_le_roundHalfEven {N : ℕ} {q : ℚ} (h : (N : ℚ) ≤ q) : (N : ℤ) ≤ roundHalfEven q := by
+  have h1 : (N : ℤ) ≤ q.floor := by
+    rw [Rat.le_floor_iff]; exact_mod_cast h
+  exact h1.trans (floor_le_roundHalfEven q)
+
+theorem paddedSize_of_conj {lf δ : ℚ} {N M : ℕ} (hlf : lf ≠ 0) (hδ : δ ≠ 0) (hM : 0 < M) (hN : N ≤ M) :
+    paddedSize lf δ (lf / (δ * (M : ℚ))) N = some M := by
+  have hMq : (M : ℚ) ≠ 0 := by exact_mod_cast hM.ne'
+  have h0 : δ * (lf / (δ * (M : ℚ))) ≠ 0 := by
+    field_simp
+    exact div_ne_zero hlf hMq
+  have hm : lf / (δ * (lf / (δ * (M : ℚ)))) = ((M : ℕ) : ℚ) := by
+    field_simp
+  unfold paddedSize
+  rw [if_neg h0]
+  dsimp only
+  rw [hm]
+  have : ((M : ℕ) : ℚ).den = 1 ∧ 0 < ((M : ℕ) : ℚ).num ∧ (N : ℤ) ≤ ((M : ℕ) : ℚ).num := by
+    refine ⟨Rat.den_natCast M, ?_, ?_⟩
+    · rw [Rat.num_natCast]; exact_mod_cast hM
+    · rw [Rat.num_natCast]; exact_mod_cast hN
+  rw [if_pos this, Rat.num_natCast]
+  simp
+
+
+/-- `make_focal_grid_from_pupil_grid(pupil, q)` (full field of view) in two dimensions, explicitly -/
+theorem focalFromPupil_2d (δx δy zx zy : ℚ) (Nx Ny : ℕ) (q lf : ℚ) :
+    (focalFromPupil ⟨[δx, δy], [Nx, Ny], [zx, zy]⟩ q none lf).1
+      = ⟨[lf / (δx * ((roundHalfEven (q * (Nx : ℚ))).toNat : ℚ)), lf / (δy * ((roundHalfEven (q * (Ny : ℚ))).toNat : ℚ))],
+          [(roundHalfEven (q * (Nx : ℚ))).toNat, (roundHalfEven (q * (Ny : ℚ))).toNat],
+          [centredZero (lf / (δx * ((roundHalfEven (q * (Nx : ℚ))).toNat : ℚ))) (roundHalfEven (q * (Nx : ℚ))).toNat,
+           centredZero (lf / (δy * ((roundHalfEven (q * (Ny : ℚ))).toNat : ℚ))) (roundHalfEven (q * (Ny : ℚ))).toNat]⟩ := by
+  have hfl : ∀ M : ℕ, ((M : ℚ) * 1).floor.toNat = M := by
+    intro M
+    have : ((M : ℚ)).floor = (M : ℤ) := by
+      have := Rat.floor_intCast (M : ℤ)
+      simpa using this
+    rw [mul_one, this]; simp
+  simp only [focalFromPupil, List.reverse_cons, List.reverse_nil, List.nil_append, List.cons_append,
+    List.zip_cons_cons, List.zip_nil_right, List.map_cons, List.map_nil, hfl]
+
+theorem le_round_of_one_le {q : ℚ} (hq : 1 ≤ q) {N : ℕ} : N ≤ (roundHalfEven (q * (N : ℚ))).toNat := by
+  have h1 : (N : ℚ) ≤ q * (N : ℚ) := by
+    have : (0 : ℚ) ≤ (N : ℚ) := by positivity
+    nlinarith
+  have h2 := natCast_le_roundHalfEven h1
+  omega
+
+/-- **`make_focal_grid_from_pupil_grid(pupil, q)` (full field of view, `q ≥ 1`) is a full conjugate of the pupil
+grid at the `λ f` it was made for** — two dimensions, any non-zero spacings, non-empty axes. -/
+theorem classify_focalFromPupil_full {s : Setup} {δx δy zx zy : ℚ} {Nx Ny : ℕ} {q : ℚ}
+    (hp : s.pupil = ⟨[δx, δy], [Nx, Ny], [zx, zy]⟩) (hlf : lamf s ≠ 0) (hδx : δx ≠ 0) (hδy : δy ≠ 0)
+    (hNx : 0 < Nx) (hNy : 0 < Ny) (hq : 1 ≤ q) :
+    classify s (focalFromPupil s.pupil q none (lamf s)).1
+      = (.full, [(roundHalfEven (q * (Nx : ℚ))).toNat, (roundHalfEven (q * (Ny : ℚ))).toNat]) := by
+  have hx : Nx ≤ (roundHalfEven (q * (Nx : ℚ))).toNat := le_round_of_one_le hq
+  have hy : Ny ≤ (roundHalfEven (q * (Ny : ℚ))).toNat := le_round_of_one_le hq
+  rw [hp, focalFromPupil_2d]
+  unfold classify paddedSizes
+  rw [hp]
+  simp only [List.length_cons, List.length_nil, ne_eq, not_true_eq_false, ↓reduceIte, List.zip_cons_cons,
+    List.zip_nil_right, List.mapM_cons, List.mapM_nil,
+    paddedSize_of_conj hlf hδx (lt_of_lt_of_le hNx hx) hx, paddedSize_of_conj hlf hδy (lt_of_lt_of_le hNy hy) hy,
+    Option.pure_def, Option.bind_eq_bind, Option.bind_some, List.all_cons, List.all_nil, Bool.and_true]
+  simp [centredZero, nativeZero]
 
 /-! ## … and implies the hypotheses of the real-number theorems -/
 
